@@ -49,14 +49,20 @@ type XAConn struct {
 	// detached: opened by ConnectionForXA for one phase-two request, not owned
 	// by the pool; closed when that request is done
 	detached bool
+	// dropped: the pool has closed this connection while it was kept for phase
+	// two; it is closed for real when phase two is done
+	dropped bool
 	// broken: an XA branch could neither be ended nor rolled back on this
 	// connection; only closing it makes the database drop the branch
 	broken bool
 }
 
-// IsValid keeps a connection with a stuck XA branch out of the pool
+// IsValid keeps a connection with a stuck XA branch out of the pool, and one
+// that is kept for phase two: until then the database accepts nothing else on
+// it, so the pool must not hand it to the next statement. The pool lets go of
+// it (Close leaves it open) and phase two closes it
 func (c *XAConn) IsValid() bool {
-	return !c.broken && c.Conn.IsValid()
+	return !c.broken && !c.isConnKept && c.Conn.IsValid()
 }
 
 func (c *XAConn) PrepareContext(ctx context.Context, query string) (driver.Stmt, error) {
@@ -167,6 +173,8 @@ func (c *XAConn) BeginTx(ctx context.Context, opts driver.TxOptions) (driver.Tx,
 			if rerr := baseTx.report(false); rerr != nil {
 				log.Errorf("report xa branch failure xid:%s, err:%v", c.txCtx.XID, rerr)
 			}
+			// nothing is prepared on this connection: it is not kept
+			c.releaseIfNecessary()
 			c.cleanXABranchContext()
 			return nil, fmt.Errorf("failed to start xa branch xid:%s err:%w", c.txCtx.XID, err)
 		}
@@ -429,6 +437,7 @@ func (c *XAConn) checkTimeout(ctx context.Context, now time.Time) error {
 func (c *XAConn) Close() error {
 	c.rollBacked = false
 	if c.isConnKept && c.ShouldBeHeld() && !c.broken {
+		c.dropped = true
 		return nil
 	}
 	c.cleanXABranchContext()
@@ -466,9 +475,13 @@ func (c *XAConn) CloseForce() error {
 	return nil
 }
 
-// CloseDetached closes a connection that was opened for one phase-two request
+// CloseDetached closes a connection that was opened for one phase-two request,
+// or that the pool gave up while it was kept for the request now done
 func (c *XAConn) CloseDetached() {
-	if c == nil || !c.detached || c.Conn == nil || c.Conn.targetConn == nil {
+	if c == nil || c.Conn == nil || c.Conn.targetConn == nil {
+		return
+	}
+	if !c.detached && !(c.dropped && !c.isConnKept) {
 		return
 	}
 	if err := c.Conn.targetConn.Close(); err != nil {
